@@ -105,6 +105,28 @@ func pickGeo(g *G, size int, used uint64, wc int) (Geo, bool) {
 	return Geo{}, false
 }
 
+// pickGeoLen: a free geometry of exactly L bits (either byte order)
+func pickGeoLen(g *G, size int, used uint64, L int) (Geo, bool) {
+	lim := ^uint64(0)
+	if size < 8 {
+		lim = (uint64(1) << uint(8*size)) - 1
+	}
+	for try := 0; try < 60; try++ {
+		be := g.R.Bool()
+		s := g.R.Intn(64)
+		ge := Geo{be, s, L}
+		if be && !FitsBE(s, L) || !be && !FitsLE(s, L) {
+			continue
+		}
+		b := bitsOf(ge)
+		if b&^lim != 0 || b&used != 0 {
+			continue
+		}
+		return ge, true
+	}
+	return Geo{}, false
+}
+
 func genDbc43(g *G, forceWC int) *gDbc {
 	d := &gDbc{}
 	nn := g.R.Intn(4)
@@ -137,6 +159,11 @@ func genDbc43(g *G, forceWC int) *gDbc {
 			ext := g.R.Intn(3) == 0
 			if ext {
 				raw = uint32(g.R.U64()) & 0x1fffffff
+			}
+			if g.R.Intn(8) == 0 {
+				// boundary IDs of both formats
+				raw = []uint32{0, 1, 0x7ff, 0x800, 0x1fffffff, 0x1ffffffe}[g.R.Intn(6)]
+				ext = raw > 0x7ff || g.R.Bool()
 			}
 			if !ids[raw] {
 				ids[raw] = true
@@ -217,11 +244,23 @@ func genDbc43(g *G, forceWC int) *gDbc {
 					all |= b
 				}
 				ge, ok := pickGeo(g, m.size, all, wc)
+				wantFloat := g.R.Intn(6) == 0 // float32 signals in either byte order are a sixth of the plain signals
+				if wantFloat {
+					if g32, ok32 := pickGeoLen(g, m.size, all, 32); ok32 {
+						ge, ok = g32, true
+					} else {
+						wantFloat = false
+					}
+				}
 				if !ok {
 					continue
 				}
 				sg.geo = ge
 				used |= bitsOf(ge)
+				if wantFloat {
+					sg.flt = true
+					sg.signed = false
+				}
 			}
 			L := sg.geo.L
 			if L == 32 && g.R.Intn(3) == 0 {
